@@ -293,8 +293,63 @@ func runC18(c *Ctx) {
 			c.Check("C18-R2", fn.Key()+" store:token.id = index", c.Pos(a), ok, "a token id may only be written in Sample (or a helper only Sample calls, on Sample's logits) as int32(i) for the index i of the logits loop")
 		}
 	}
+	// the literal spelling: tokens[i] = token{id: int32(i), value: logits[i]} (or the range value)
+	nLit := 0
+	for _, fn := range c.P.FuncsOf("sample") {
+		if logitsOf[fn.Obj] == nil {
+			continue
+		}
+		for _, rl := range rangeLoops(fn) {
+			if rl.Over != logitsOf[fn.Obj] {
+				continue
+			}
+			kid, isK := rl.Stmt.Key.(*ast.Ident)
+			if !isK {
+				continue
+			}
+			key := info.Defs[kid]
+			var val types.Object
+			if vid, isV := rl.Stmt.Value.(*ast.Ident); isV {
+				val = info.Defs[vid]
+			}
+			for _, st := range rl.Stmt.Body.List {
+				a, isAs := st.(*ast.AssignStmt)
+				if !isAs || len(a.Lhs) != 1 || len(a.Rhs) != 1 {
+					continue
+				}
+				lit, isLit := ast.Unparen(a.Rhs[0]).(*ast.CompositeLit)
+				if !isLit || core.ObjNameOfType(info.TypeOf(lit)) != "sample.token" {
+					continue
+				}
+				ix, isIx := ast.Unparen(a.Lhs[0]).(*ast.IndexExpr)
+				okID, okVal := false, false
+				for _, el := range lit.Elts {
+					kv, isKV := el.(*ast.KeyValueExpr)
+					if !isKV {
+						continue
+					}
+					switch core.ExprString(kv.Key) {
+					case "id":
+						if conv, isConv := ast.Unparen(kv.Value).(*ast.CallExpr); isConv && len(conv.Args) == 1 && isIdentOf(info, conv.Args[0], key) {
+							okID = true
+						}
+					case "value":
+						if val != nil && isIdentOf(info, kv.Value, val) {
+							okVal = true
+						}
+						if vx, isVx := ast.Unparen(kv.Value).(*ast.IndexExpr); isVx && isIdentOf(info, vx.X, logitsOf[fn.Obj]) && isIdentOf(info, vx.Index, key) {
+							okVal = true
+						}
+					}
+				}
+				nLit += initCalls[fn.Obj]
+				c.Check("C18-R2", fn.Key()+" store:token literal = {index, logit}", c.Pos(a), isIx && isIdentOf(info, ix.Index, key) && okID && okVal, "a token written as a literal must be tokens[i] = token{id: int32(i), value: logits[i]} for the index i of the range over the logits")
+			}
+		}
+	}
+	nID += nLit
 	c.Expect("C18-R2", "stores to token.id", nID, 2)
-	nV := 0
+	nV := nLit
 	for _, f := range c.P.FuncsOf("sample") {
 		if logitsOf[f.Obj] == nil {
 			continue
@@ -329,7 +384,7 @@ func runC18(c *Ctx) {
 				// the slice whose elements get the ids
 				if call, isC := ast.Unparen(a.Rhs[0]).(*ast.CallExpr); isC && core.CalleeName(info, call) == "builtin.make" && len(call.Args) >= 2 {
 					if sl, isSl := info.TypeOf(call).Underlying().(*types.Slice); isSl && core.ObjNameOfType(sl.Elem()) == "sample.token" {
-						if p, isLen := isLenOf(info, call.Args[1]); isLen && p.Root == paramAt(f, 0) && len(p.Fields) == 0 {
+						if p, isLen := isLenOf(info, resolveLocal(info, f.Body, call.Args[1])); isLen && p.Root == paramAt(f, 0) && len(p.Fields) == 0 {
 							fresh = true
 						}
 					}
